@@ -396,7 +396,7 @@ impl Property for C19 {
         vec![("search_files", 600_000, 600)]
     }
     fn rule(&self) -> String {
-        "bytes -> write history (writer created on an ordinary day or 3 s before UTC midnight, 1-8 (an eighth of the histories: 7-14, so that file numbers pass 9) written seconds with gaps 1..7 s / 61 s / a day, 1-4 items per second over 3 resources incl. one whose name contains the separator, single_file_max_size in {1,120,250,400,100000}, max_file_count 1..4), fresh searcher per query or one reused (then the whole query list is asked three times: begins ascending, descending and in a generated shuffled order, since what a reused searcher caches depends on the order); queries are enumerated exhaustively per history: every (begin, end, resource | \"\") over the written seconds (plus begin one second earlier, end beyond the last) and every (begin, max_lines 1..2*items); crash points = prefixes of the journalled byte stream the writer issued (file creations/removals, index-entry bytes, line bytes in program order): every operation boundary, every interior byte of every index entry and sampled (quick: 24 per history, thorough: all) interior line bytes; oracle: physical placement and retention from the journal, semantics from the statement; non-trivial = history spans >= 2 files and (crash mode) some cut falls inside an index entry or a line; distinct = distinct decoded histories".into()
+        "bytes -> write history (writer created on an ordinary day or 3 s before UTC midnight, 1-8 (an eighth of the histories: 7-14, so that file numbers pass 9) written seconds with gaps 1..7 s / 61 s / a day, 1-4 items per second over 3 resources incl. one whose name contains the separator, single_file_max_size in {1,120,250,400,100000}, max_file_count 1..4), fresh searcher per query or one reused (then the whole query list is asked three times: begins ascending, descending and in a generated shuffled order, since what a reused searcher caches depends on the order); queries are enumerated exhaustively per history: every (begin, end, resource | \"\") over the written seconds (plus begin one second earlier, end beyond the last) and every (begin, max_lines 1..2*items); crash points = prefixes of the journalled byte stream the writer issued (file creations/removals, index-entry bytes, line bytes in program order): every operation boundary, every interior byte of every index entry and sampled (quick: 24 per history, thorough: all) interior line bytes; oracle: physical placement and removals from the journal (retention may only remove the oldest files and must leave min(created, max_file_count) of them), semantics from the statement; non-trivial = history spans >= 2 files and (crash mode) some cut falls inside an index entry or a line; distinct = distinct decoded histories".into()
     }
     fn assumptions(&self) -> Vec<String> {
         vec![
@@ -418,6 +418,38 @@ impl Property for C19 {
         let all_items: Vec<Item> = h.items.iter().map(|(i, _)| i.clone()).collect();
         let creates = h.journal.iter().filter(|o| matches!(o, JOp::Create(p) if !p.ends_with(".idx"))).count();
         let removes = h.journal.iter().filter(|o| matches!(o, JOp::Remove(_))).count();
+        // --- retention: only the oldest files may go, and no more of them than the file limit asks for (items in the
+        // newest max_file_count files are "within the retention limit" and must stay findable)
+        {
+            let mut created: Vec<String> = Vec::new();
+            let mut alive: Vec<String> = Vec::new();
+            for op in h.journal.iter() {
+                match op {
+                    JOp::Create(p) if !p.ends_with(".idx") => {
+                        if !created.contains(p) {
+                            created.push(p.clone());
+                        }
+                        if !alive.contains(p) {
+                            alive.push(p.clone());
+                        }
+                    }
+                    JOp::Remove(p) if !p.ends_with(".idx") => {
+                        // the file removed must be the oldest one alive
+                        if alive.first() != Some(p) {
+                            let _ = std::fs::remove_dir_all(&h.dir);
+                            return fail("retention-removed-a-newer-file".into(), "retention|newer-file-removed".into(), format!("{} was removed while the older {:?} is still there (files alive, oldest first: {:?})", p, alive.first(), alive));
+                        }
+                        alive.remove(0);
+                    }
+                    _ => {}
+                }
+            }
+            let must_keep = created.len().min(case.max_files);
+            if alive.len() < must_keep {
+                let _ = std::fs::remove_dir_all(&h.dir);
+                return fail("retention-removed-too-much".into(), "retention|too-few-files-kept".into(), format!("{} log files were created, max_file_count is {}, but only {} are left: {:?}", created.len(), case.max_files, alive.len(), alive));
+            }
+        }
         // --- no crash: the final state
         let (dir, complete, _) = materialise(&h, h.journal.len(), 0);
         let survivors: Vec<Item> = all_items.iter().zip(complete.iter()).filter(|(_, c)| **c).map(|(i, _)| i.clone()).collect();
